@@ -827,6 +827,26 @@ func randCase(r *rand.Rand) tcase {
 			c.layers = append(c.layers, randLayer(r, focus, c.limit, true))
 		}
 	}
+	// the build-step streams write plain names; a tar writer spells all the names of an archive one way (plain, "./p" or
+	// "/p"): a third of these images get one spelling for the whole image, another sixth one per layer (a rooted layer over
+	// an unrooted one is what go-containerregistry's Extract treats as two different names: C04/squash-absolute-names)
+	if mode < 40 {
+		prefixes := []string{"", "./", "/"}
+		policy := r.Intn(6)
+		whole := prefixes[r.Intn(3)]
+		for i := range c.layers {
+			pre := ""
+			switch policy {
+			case 0, 1:
+				pre = whole
+			case 2:
+				pre = prefixes[r.Intn(3)]
+			}
+			for k := range c.layers[i] {
+				c.layers[i][k].name = pre + c.layers[i][k].name
+			}
+		}
+	}
 	// history
 	var hb strings.Builder
 	hm := r.Intn(100)
